@@ -202,9 +202,9 @@ def twoparam_blocks(pairs, reps):
     return blocks, meta
 
 
-def readout_result_units(ctx, meta, alive, prelude_defs):
+def readout_result_units(ctx, meta, alive, prelude_defs, tag="c09units"):
     """(m, o) of the unit of p-p', p+q, p-q results and of the common point unit."""
-    ex = extract.Extractor(ctx, prelude=witness.DEFAULT_PRELUDE + USING + points.TEMP_HDRS + prelude_defs, tag="c09units")
+    ex = extract.Extractor(ctx, prelude=witness.DEFAULT_PRELUDE + USING + points.TEMP_HDRS + prelude_defs, tag=tag)
     for k in alive:
         s, d, r1, r2 = meta[k]
         P1 = "std::declval<au::QuantityPoint<%s, %s>>()" % (s.cpp, r1)
@@ -265,6 +265,25 @@ def find_atoms(node):
     return out
 
 
+def audit_common_rep(premises, r1, r2):
+    """Both points are first brought to the common rep and only then to the common unit: no
+    arithmetic step and no narrowing may happen in a type narrower than the (promoted) common rep.
+    (Scaling an operand in its own narrower rep gives the same affine form on paper, but wraps or
+    truncates for values the common rep holds easily.)  Returns a complaint or None."""
+    rc = model.canon(model.common_type(r1, r2))
+    bits = model.INT_TYPES[rc][0]
+    pbits = max(bits, 32)
+    for p in premises:
+        w = dag.INT_BITS.get(p.ty)
+        if w is None:
+            continue
+        if p.op == "trunc" and w < bits:
+            return "a value is narrowed to %s although the common rep of (%s, %s) is %s" % (p.ty, r1, r2, rc)
+        if p.op in ("mul", "add", "sub", "sdiv", "udiv") and w < pbits:
+            return "%s is carried out in %s although the common rep of (%s, %s) is %s" % (p.op, p.ty, r1, r2, rc)
+    return None
+
+
 def analyse_two(ctx, mod, k, s, d, r1, r2, units, findings):
     nob = ndis = 0
     base = "two:%s,%s:%s,%s" % (s.name, d.name, r1, r2)
@@ -282,6 +301,10 @@ def analyse_two(ctx, mod, k, s, d, r1, r2, units, findings):
         if not ok:
             findings.append((base + "|" + nm, "point comparison %s of %s compares %r with %r: not the two positions x*%s+%s and y*%s+%s on one scale"
                              % (op, base, fa, fb, s.m, s.o, d.m, d.o), dd.ret.pretty()))
+            continue
+        why = audit_common_rep(fa.premises + fb.premises, r1, r2)
+        if why:
+            findings.append((base + "|" + nm + "|rep", "point comparison %s of %s: %s" % (op, base, why), dd.ret.pretty()))
             continue
         classify = lambda n, A=A, B=B: "A" if n == A else "B" if n == B else None
         try:
@@ -306,6 +329,10 @@ def analyse_two(ctx, mod, k, s, d, r1, r2, units, findings):
         if a is None or a.div is not None or not a.same(*want):
             findings.append((base + "|" + nm, "%s of %s computes %r, the affine meaning is %s*x %+d*%s*y + %s (result unit size %s%s)"
                              % (nm, base, a, want[0][0], sign, abs(want[0][1]), want[1], mR, "" if oR is None else ", origin %s" % oR), dd.ret.pretty()))
+            continue
+        why = audit_common_rep(a.premises, r1, r2)
+        if why:
+            findings.append((base + "|" + nm + "|rep", "%s of %s: %s" % (nm, base, why), dd.ret.pretty()))
             continue
         if nm != "diff" and oR != s.o:
             findings.append((base + "|" + nm + "|origin", "%s of %s: the result's origin is %s, not the point's origin %s" % (nm, base, oR, s.o), ""))
@@ -393,7 +420,8 @@ def body(ctx):
 
     # ---- two-parameter operations (integral reps of one width)
     tp_pairs = pairs[:(60 if ctx.thorough else 14)]
-    blocks2, meta2 = twoparam_blocks(tp_pairs, [("int64_t", "int64_t")] + ([("int32_t", "int32_t"), ("int32_t", "int64_t")] if ctx.thorough else []))
+    blocks2, meta2 = twoparam_blocks(tp_pairs, [("int64_t", "int64_t"), ("int32_t", "int64_t"), ("int64_t", "int16_t")]
+                                     + ([("int32_t", "int32_t"), ("uint32_t", "int64_t"), ("int16_t", "int32_t"), ("uint16_t", "uint64_t")] if ctx.thorough else []))
     blocks2 = strip_defs(blocks2)
     chunks2 = [blocks2[i:i + 12] for i in range(0, len(blocks2), 12)]
     ntwo = [0]
@@ -405,7 +433,7 @@ def body(ctx):
         fs = []
         nob = ndis = 0
         if alive:
-            ru = readout_result_units(ctx, meta2, alive, gdefs + "\n")
+            ru = readout_result_units(ctx, meta2, alive, gdefs + "\n", tag="c09units%d" % ci)
             for k in alive:
                 s, d, r1, r2 = meta2[k]
                 a, b = analyse_two(ctx, mod, k, s, d, r1, r2, ru[k], fs)
